@@ -1,7 +1,12 @@
 //! Reachable-machine extraction for the two scancode decoders (DESIGN §3.3).
-//! Needs the `verif-hooks` derive(Clone, PartialEq) for state snapshots / identity.
+//! Needs the `verif-hooks` derive(Debug, Clone, PartialEq) for state snapshots / identity:
+//! Clone to branch, PartialEq to decide identity, Debug only as a *hash bucket key* (two states
+//! are merged only if PartialEq says so; a Debug string that hides a field merely makes buckets
+//! coarser, one that shows irrelevant detail merely makes them finer).
 use crate::report::guard;
 use crate::universe::*;
+use rayon::prelude::*;
+use std::collections::HashMap;
 
 pub trait Dec: ScancodeSet + Clone + PartialEq + std::fmt::Debug + Send + Sync {
     const NAME: &'static str;
@@ -31,55 +36,137 @@ pub enum Step {
     Panic(String),
 }
 
+const NO_STATE: u32 = u32::MAX;
+
 pub struct Graph<D: Dec> {
     pub states: Vec<D>,
-    pub parent: Vec<Option<(usize, u8)>>,
-    pub trans: Vec<Vec<Step>>, // [state][byte]
+    pub parent: Vec<Option<(u32, u8)>>,
+    /// interned distinct outputs (index 0.. ); panics are interned too
+    outs: Vec<Result<ScOut, String>>,
+    out_of: Vec<[u16; 256]>,
+    next: Vec<[u32; 256]>,
     pub closed: bool,
+    pub cap: usize,
 }
 
-pub const STATE_CAP: usize = 4096;
+/// State caps: beyond these the decoder is no longer treated as a small automaton and only
+/// the black-box layers apply (reported as `inconclusive` detail, never as a violation).
+pub fn state_cap(thorough: bool) -> usize {
+    if thorough {
+        400_000
+    } else {
+        40_000
+    }
+}
 
 impl<D: Dec> Graph<D> {
     pub fn extract() -> Graph<D> {
-        let mut g = Graph {
-            states: vec![D::fresh()],
-            parent: vec![None],
-            trans: Vec::new(),
-            closed: false,
-        };
-        let mut i = 0;
-        while i < g.states.len() {
-            let mut row = Vec::with_capacity(256);
-            for b in 0..=255u8 {
-                let mut s = g.states[i].clone();
-                match guard(|| {
-                    let o = s.advance_state(b);
-                    (o, s)
-                }) {
-                    Ok((o, s2)) => {
-                        let j = match g.states.iter().position(|x| *x == s2) {
+        Self::extract_with_cap(state_cap(std::env::var("VERIF_TIER").map(|t| t == "thorough").unwrap_or(false) || std::env::args().any(|a| a == "thorough")))
+    }
+
+    pub fn extract_with_cap(cap: usize) -> Graph<D> {
+        let mut g = Graph { states: vec![D::fresh()], parent: vec![None], outs: Vec::new(), out_of: Vec::new(), next: Vec::new(), closed: false, cap };
+        let mut buckets: HashMap<String, Vec<u32>> = HashMap::new();
+        buckets.insert(format!("{:?}", g.states[0]), vec![0]);
+        let mut out_ids: HashMap<String, u16> = HashMap::new();
+        let mut level_start = 0usize;
+        loop {
+            let level_end = g.states.len();
+            if level_start == level_end {
+                g.closed = true;
+                return g;
+            }
+            // expand the whole BFS level in parallel: (output, successor, successor's Debug key)
+            let expanded: Vec<Vec<Result<(ScOut, D, String), String>>> = g.states[level_start..level_end]
+                .par_iter()
+                .map(|st| {
+                    (0..=255u8)
+                        .map(|b| {
+                            let mut s = st.clone();
+                            guard(|| {
+                                let o = s.advance_state(b);
+                                let key = format!("{:?}", s);
+                                (o, s, key)
+                            })
+                        })
+                        .collect()
+                })
+                .collect();
+            for (off, row) in expanded.into_iter().enumerate() {
+                let i = level_start + off;
+                let mut out_row = [0u16; 256];
+                let mut next_row = [NO_STATE; 256];
+                for (b, cell) in row.into_iter().enumerate() {
+                    let (interned, succ): (Result<ScOut, String>, Option<(D, String)>) = match cell {
+                        Ok((o, s2, key)) => (Ok(o), Some((s2, key))),
+                        Err(p) => (Err(p), None),
+                    };
+                    let okey = match &interned {
+                        Ok(o) => sc_out_str(o),
+                        Err(p) => format!("PANIC:{}", p),
+                    };
+                    let oid = *out_ids.entry(okey).or_insert_with(|| {
+                        g.outs.push(interned.clone());
+                        (g.outs.len() - 1) as u16
+                    });
+                    out_row[b] = oid;
+                    if let Some((s2, key)) = succ {
+                        let bucket = buckets.entry(key).or_default();
+                        let found = bucket.iter().copied().find(|j| g.states[*j as usize] == s2);
+                        let j = match found {
                             Some(j) => j,
                             None => {
-                                if g.states.len() >= STATE_CAP {
-                                    g.trans.push(row);
-                                    return g; // not closed
+                                if g.states.len() >= cap {
+                                    // not closed: keep what we have; unexplored successors point nowhere
+                                    NO_STATE
+                                } else {
+                                    g.states.push(s2);
+                                    g.parent.push(Some((i as u32, b as u8)));
+                                    let j = (g.states.len() - 1) as u32;
+                                    bucket.push(j);
+                                    j
                                 }
-                                g.states.push(s2);
-                                g.parent.push(Some((i, b)));
-                                g.states.len() - 1
                             }
                         };
-                        row.push(Step::Ret(o, j));
+                        next_row[b] = j;
                     }
-                    Err(m) => row.push(Step::Panic(m)),
                 }
+                g.out_of.push(out_row);
+                g.next.push(next_row);
             }
-            g.trans.push(row);
-            i += 1;
+            level_start = level_end;
+            if g.states.len() >= cap {
+                // finish rows for the states discovered so far? No: stop here, graph is partial.
+                g.closed = false;
+                return g;
+            }
         }
-        g.closed = true;
-        g
+    }
+
+    /// number of states whose outgoing transitions have been computed
+    pub fn expanded(&self) -> usize {
+        self.out_of.len()
+    }
+
+    pub fn step(&self, s: usize, b: u8) -> Step {
+        match &self.outs[self.out_of[s][b as usize] as usize] {
+            Ok(o) => Step::Ret(o.clone(), self.next[s][b as usize] as usize),
+            Err(p) => Step::Panic(p.clone()),
+        }
+    }
+    pub fn out_id(&self, s: usize, b: u8) -> u16 {
+        self.out_of[s][b as usize]
+    }
+    pub fn next_of(&self, s: usize, b: u8) -> Option<usize> {
+        let n = self.next[s][b as usize];
+        if n == NO_STATE || (n as usize) >= self.expanded() && !self.closed {
+            if n == NO_STATE { None } else { Some(n as usize) }
+        } else {
+            Some(n as usize)
+        }
+    }
+    pub fn out_is_none(&self, s: usize, b: u8) -> bool {
+        matches!(&self.outs[self.out_of[s][b as usize] as usize], Ok(Ok(None)))
     }
 
     /// Shortest byte history reaching state `i` from a fresh decoder.
@@ -87,40 +174,30 @@ impl<D: Dec> Graph<D> {
         let mut v = Vec::new();
         while let Some((p, b)) = self.parent[i] {
             v.push(b);
-            i = p;
+            i = p as usize;
         }
         v.reverse();
         v
     }
 
     /// Mealy-machine behavioural equivalence classes (partition refinement on outputs).
-    /// Panicking transitions count as a distinct output with no successor.
-    pub fn equivalence_classes(&self) -> Vec<usize> {
-        let n = self.states.len();
-        let mut class = vec![0usize; n];
+    /// Only meaningful on a closed graph.
+    pub fn equivalence_classes(&self) -> Vec<u32> {
+        let n = self.expanded();
+        let mut class = vec![0u32; n];
         loop {
-            let mut sigs: Vec<(usize, Vec<(String, usize)>)> = Vec::with_capacity(n);
+            let mut ids: HashMap<Vec<(u16, u32)>, u32> = HashMap::new();
+            let mut newc = vec![0u32; n];
             for i in 0..n {
-                let mut row = Vec::with_capacity(256);
+                let mut sig: Vec<(u16, u32)> = Vec::with_capacity(257);
+                sig.push((0, class[i]));
                 for b in 0..256 {
-                    match &self.trans[i][b] {
-                        Step::Ret(o, j) => row.push((sc_out_str(o), class[*j])),
-                        Step::Panic(_) => row.push(("PANIC".to_string(), usize::MAX)),
-                    }
+                    let nx = self.next[i][b];
+                    let c = if nx == NO_STATE || nx as usize >= n { u32::MAX } else { class[nx as usize] };
+                    sig.push((self.out_of[i][b], c));
                 }
-                sigs.push((class[i], row));
-            }
-            let mut uniq: Vec<&(usize, Vec<(String, usize)>)> = Vec::new();
-            let mut newc = vec![0usize; n];
-            for i in 0..n {
-                let pos = uniq.iter().position(|u| **u == sigs[i]);
-                newc[i] = match pos {
-                    Some(p) => p,
-                    None => {
-                        uniq.push(&sigs[i]);
-                        uniq.len() - 1
-                    }
-                };
+                let next_id = ids.len() as u32;
+                newc[i] = *ids.entry(sig).or_insert(next_id);
             }
             if newc == class {
                 return class;
@@ -128,9 +205,69 @@ impl<D: Dec> Graph<D> {
             class = newc;
         }
     }
+
+    /// Longest path of Ok(None) transitions (None = a cycle of such transitions exists).
+    pub fn longest_none_path(&self) -> (Option<usize>, usize) {
+        let n = self.expanded();
+        // iterative DFS with colours
+        let mut best = vec![0usize; n];
+        let mut colour = vec![0u8; n];
+        let mut worst_state = 0usize;
+        let mut cyclic = false;
+        for root in 0..n {
+            if colour[root] != 0 {
+                continue;
+            }
+            let mut stack: Vec<(usize, usize)> = vec![(root, 0)];
+            colour[root] = 1;
+            while let Some((s, b)) = stack.last().copied() {
+                if b == 256 {
+                    colour[s] = 2;
+                    stack.pop();
+                    if let Some((p, _)) = stack.last().copied() {
+                        if best[p] < best[s] + 1 {
+                            best[p] = best[s] + 1;
+                        }
+                    }
+                    continue;
+                }
+                stack.last_mut().unwrap().1 += 1;
+                if self.out_is_none(s, b as u8) {
+                    let nx = self.next[s][b];
+                    if nx == NO_STATE || nx as usize >= n {
+                        if best[s] < 1 {
+                            best[s] = 1;
+                        }
+                        continue;
+                    }
+                    let nx = nx as usize;
+                    match colour[nx] {
+                        0 => {
+                            colour[nx] = 1;
+                            stack.push((nx, 0));
+                        }
+                        1 => cyclic = true,
+                        _ => {
+                            if best[s] < best[nx] + 1 {
+                                best[s] = best[nx] + 1;
+                            }
+                        }
+                    }
+                }
+            }
+        }
+        let mut longest = 0;
+        for i in 0..n {
+            if best[i] > longest {
+                longest = best[i];
+                worst_state = i;
+            }
+        }
+        (if cyclic { None } else { Some(longest) }, worst_state)
+    }
 }
 
-/// Feed a byte history to a fresh decoder and return the result of the last byte (hook-free).
+/// Feed a byte history to a fresh decoder and return every result (hook-free).
 pub fn run_bytes<D: Dec>(bytes: &[u8]) -> Result<Vec<ScOut>, String> {
     guard(|| {
         let mut d = D::fresh();
